@@ -171,12 +171,9 @@ def row_add_cel_outer(ctx, site):
         return False, 'not dominated by check_valid_frame_id(frame_id)? on the same index'
     cb = ctx.fx.body('asefile::cel::CelsData::check_valid_frame_id')
 
-    def pred(cond):
-        if cond[0] == 'bin' and cond[1] == 'Ge' and is_param(strip_casts(cond[2]), 2) and cond[3][0] == 'call' and cond[3][1] in T.LEN \
-                and is_param_path(cond[3][2][0], 1, ['data']):
-            return True
-        return None
-    if cb is None or not T.callee_rejects(cb, pred):
+    def want(op, l, r_):
+        return op == 'Lt' and is_param(l, 2) and r_[0] == 'call' and r_[1] in T.LEN and is_param_path(r_[2][0], 1, ['data'])
+    if cb is None or not T.callee_passes_only_if(cb, want):
         return False, 'check_valid_frame_id no longer rejects frame_id >= data.len()'
     return True, 'dominated by check_valid_frame_id(frame_id)? which returns Err when frame_id >= data.len()'
 
@@ -194,10 +191,9 @@ def row_add_cel_inner(ctx, site):
             continue
         if strip_casts(ra[0]) != strip_casts(at[0]) and ra[0] != at[0]:
             continue
-        # the resize is skipped only when len >= n
-        for cond, vals, a in q.guards(b, c.bb):
-            if cond[0] == 'bin' and cond[1] == 'Lt' and cond[2][0] == 'call' and cond[2][1] in T.LEN and strip_casts(cond[3]) == n \
-                    and q.bool_outcome(b, a, vals) is True and b.cfg.dominates(a, site.bb):
+        # the resize is skipped only when len >= n (any spelling of `len < n` on the edge into the resize)
+        for a in T.holding_fact(b, c.bb, lambda op, l, r_: op == 'Lt' and l[0] == 'call' and l[1] in T.LEN and r_ == n):
+            if b.cfg.dominates(a, site.bb):
                 return True, 'dominated by `if row.len() < layer+1 { row.resize_with(layer+1) }` on the same row and index'
     return False, 'no dominating resize_with(index + 1) under len < index + 1 on the same row'
 
@@ -268,14 +264,8 @@ def row_layers_index(ctx, site):
     at = q.arg_terms(c)
     cid = at[1]
     layer_t = strip_casts(dict(cid[3]).get('layer')) if cid[0] == 'agg' else None
-    guarded = False
-    for cond, vals, a in q.guards(cv, c.bb):
-        if cond[0] == 'bin' and cond[1] == 'Ge' and strip_casts(cond[2]) == layer_t and q.bool_outcome(cv, a, vals) is False:
-            ln = cond[3]
-            if ln[0] == 'call' and ln[1] in T.LEN and field_path(ln[2][0])[1] == ['layers'] and field_path(ln[2][0])[0] == at[2]:
-                tm = cv.blocks[a]['term']
-                if q.arm_always_err(cv, tm['otherwise']):
-                    guarded = True
+    guarded = T.rejecting_fact(cv, c.bb, lambda op, l, r_: op == 'Lt' and l == layer_t and r_[0] == 'call' and r_[1] in T.LEN and
+                               field_path(r_[2][0])[1] == ['layers'] and field_path(r_[2][0])[0] == at[2])
     if not guarded:
         return False, 'the call of RawCel::validate is not dominated by `layer >= layers.len() -> Err` on the same layers and index'
     # inside RawCel::validate the index is cel_id.layer of the parameter, the vector the layers parameter
